@@ -107,7 +107,18 @@ func loadStruct(w *World, h HeapView, so Sort, st *types.Struct, ref Term) Term 
 }
 
 func fieldComp(so Sort, field string) string { return "F!" + string(so) + "!" + field }
-func memComp(elem Sort) string              { return "M!" + sanitize(string(elem)) }
+// memCompT names the heap component holding the backing arrays whose element
+// type is t.  Arrays of different Go element types can never alias (no unsafe
+// code in the verified subset), so they live in different components.
+func memCompT(t types.Type) string {
+	n := "M!" + sanitize(typeName(t))
+	compElemTypes[n] = t
+	return n
+}
+
+// compElemTypes remembers the Go element type of every M! component (VC
+// generation is single-threaded).
+var compElemTypes = map[string]types.Type{}
 func cellComp(so Sort) string               { return "P!" + sanitize(string(so)) }
 func mapDomComp(k, v Sort) string           { return "MD!" + sanitize(string(k)) + "!" + sanitize(string(v)) }
 func mapValComp(k, v Sort) string           { return "MV!" + sanitize(string(k)) + "!" + sanitize(string(v)) }
@@ -480,7 +491,7 @@ func (e *SpecEnv) index(x EIndex) SVal {
 	case *types.Slice:
 		i := e.intOf(x.I)
 		es := e.W.Sorts.SortOf(u.Elem())
-		m := e.Heap.Comp(memComp(es), memSort(es))
+		m := e.Heap.Comp(memCompT(u.Elem()), memSort(es))
 		return SVal{T: e.W.Sorts.Elt(Sel(m, SArr(v.T)), SOff(v.T), i), Go: u.Elem()}
 	case *types.Basic:
 		if u.Info()&types.IsString != 0 {
@@ -489,7 +500,7 @@ func (e *SpecEnv) index(x EIndex) SVal {
 	case *types.Pointer:
 		if a, ok := u.Elem().Underlying().(*types.Array); ok {
 			es := e.W.Sorts.SortOf(a.Elem())
-			m := e.Heap.Comp(memComp(es), memSort(es))
+			m := e.Heap.Comp(memCompT(a.Elem()), memSort(es))
 			return SVal{T: e.W.Sorts.Elt(Sel(m, v.T), IntLit(0), e.intOf(x.I)), Go: a.Elem()}
 		}
 	case *types.Array:
@@ -655,7 +666,7 @@ func (e *SpecEnv) call(x ECall) SVal {
 			sfail("mem() of non-slice")
 		}
 		es := e.W.Sorts.SortOf(st.Elem())
-		return SVal{T: Sel(e.Heap.Comp(memComp(es), memSort(es)), SArr(v.T))}
+		return SVal{T: Sel(e.Heap.Comp(memCompT(st.Elem()), memSort(es)), SArr(v.T))}
 	}
 	// spec function
 	name := x.Fun
